@@ -13,8 +13,8 @@ from ..core import fmt, fmt_list, parse_rats, frac, err_kind, exact, floats
 
 ID = "C11"
 THREADS = True       # part of the cases run concurrently in threads of one interpreter (the schedule dimension)
-MODULES = ["TWV.Tie.Search", "TWV.Properties.C11", "TWV.Tie.ProcessFns", "TWV.Tie.WeaverStep"]
-TRANSLATORS = ["t5_search", "t10_process", "t9_weaver"]
+MODULES = ["TWV.Tie.Search", "TWV.Properties.C11", "TWV.Tie.ProcessFns", "TWV.Tie.WeaverStep", "TWV.Tie.WeaverIO"]
+TRANSLATORS = ["t5_search", "t10_process", "t9_weaver", "t14_weaverio"]
 RULE = ("boundary-heavy cases: (a) process.truncate on lattice series of 1..14 points with bounds inside, exactly on samples, "
         "equal to the first / last abscissa, outside, inverted, absolute or as ratios 0, 1, in between; (b) Weaver sessions "
         "(after a short valid history incl. recreate, so that the reference differs from the working series) with "
